@@ -52,7 +52,8 @@ def main() -> int:
             print(f"DEMO with-change exit={with_change.returncode} unchanged exit={without.returncode}")
         checks = {}
         for pid in args.ids:
-            env_c = dict(os.environ, ROPT_SRC=str(scratch / "src"))
+            # fail-fast: stop exploring at the first shard that reports a violation (a seeded change only has to be reported)
+            env_c = dict(os.environ, ROPT_SRC=str(scratch / "src"), VERIF_FAILFAST="1")
             t0 = time.time()
             res = subprocess.run(["/verif/run.sh", pid, args.tier, "--no-evidence"], env=env_c, capture_output=True, text=True)
             sigs = [l.strip() for l in res.stdout.splitlines() if l.strip().startswith("signature=")]
